@@ -193,7 +193,32 @@ def run(ctx):
                 viol.append((name, n, r, "outcome is neither a translation nor a library exception"))
             if name.startswith("sa-") and (mentions_unknown(n) or wrong_model_field(n)) and not (r.startswith("lib InvalidFieldException") or (name == "sa-core" and r == "notimpl")):
                 viol.append((name, n, r, "unknown field not reported as InvalidFieldException"))
-    # the same-name relationship collision: `w/o/name` does not exist (W.o -> Tag has `label`), whatever was traversed before
+    # completeness of in-lists on the ORM backends: every element of the filter's list — literals of every kind and `null` — is an element of
+    # the compiled IN (...) list ("never returns output with a part missing")
+    import re as _re
+    def in_items(sql):
+        m = _re.search(r"\bIN \(((?:[^()]|\([^()]*\))*)\)", sql)
+        return None if not m else len([x for x in m.group(1).split(",")])
+    # (distinct elements only: Django's In lookup de-duplicates equal values itself, which loses nothing)
+    INLISTS = [("i1", ["1", "null"]), ("i1", ["null", "1", "2"]), ("i1", ["null"]), ("s1", ["'a'", "null"]), ("s1", ["'a'", "'c'", "'b'"]), ("i1", ["1", "-1"]),
+               ("f1", ["1.5", "null", "2"]), ("d1", ["2020-01-01", "null"]), ("i1", ["1", "2", "3", "null", "4"]), ("s1", ["''", "null", "'null'"])]
+    for col, items in INLISTS:
+        for tmpl in ("{c} in ({l})", "not ({c} in ({l}))", "({c} in ({l})) eq false", "{c} in ({l}) or i2 eq 0"):
+            t = tmpl.format(c=col, l=", ".join(items) + ("," if len(items) == 1 else ""))
+            for bname, comp in (("django", lambda x: oc.dj_shorthand_sql(x)), ("sa-orm", lambda x: oc.sa_shorthand_sql(x, "orm")), ("sa-core", lambda x: oc.sa_shorthand_sql(x, "core"))):
+                out, sql, params = comp(t)
+                ctx.evaluations += 1
+                if out != "ok":
+                    tally[f"{bname}:inlist:{' '.join(out.split(' ')[:2])}"] += 1
+                    if not (out.startswith("lib ") or out == "notimpl"):
+                        viol.append((bname, impl.real_parse_ast(t), out, "outcome is neither a translation nor a library exception"))
+                    continue
+                n = in_items(sql)
+                if n != len(items):
+                    tally[f"{bname}:inlist:INCOMPLETE"] += 1
+                    viol.append((bname, impl.real_parse_ast(t), f"ok {sql[-160:]}", f"the filter's list has {len(items)} elements, the compiled IN list has {n}: an element is missing"))
+                else:
+                    tally[f"{bname}:inlist:complete"] += 1
     ctx.extra["judged"] = dict(sorted(tally.items()))
     ctx.note(f"judge C12 on real outcomes: {len(viol)} violations; classes: " + ", ".join(f"{k}={v}" for k, v in sorted(tally.items()) if "foreign" in k or "notimpl" in k or "env" in k))
     new = [(b, n, r, why) for (b, n, r, why) in viol if f"C12:{b}:{type(n).__name__}" not in known_sigs]
